@@ -11,6 +11,7 @@ RULE = (
     "(cc) antineutrino vs neutrino and e- vs e+ CC: O[p] = +-O'[pbar], minus for F3 (rtol 1e-10), and e+ == neutrino, "
     "e- == antineutrino bit-identical; (flav) NC/EM, every scheme: rows of light (massless) quarks with identical charges coincide "
     "(d=s=b, u=c among the nf light flavours) (rtol 1e-10). Distinct = (relation, kind, heavyness, scheme, PTO); non-trivial = the compared tensors are non-zero."
+    " The flavour symmetry is also demanded of tagged observables (<kind>_charm/_bottom) among the other quarks of the same charge, with cases that make the tagged quark massless below heavier active quarks at orders >= 2."
 )
 ASSUMPTIONS = ["Z decoupling is realised by MZ = MW = 1e12 GeV (propagator ratio ~ Q2/MZ^2 <= 1e-19)"]
 RTOL = 1e-10  # re-association noise is relative to the sum of |kernel terms|, which can exceed the result by 1e2 (thorough: margin 0.7 at 1e-12)
